@@ -646,7 +646,9 @@ fn exec16(sc: &Scen16) -> (Option<Violation>, u64, Stats, bool) {
                             props: vec!["C16"],
                             clause: "wrong-description".into(),
                             op: "error_description".into(),
-                            key: if whose.is_empty() { "other-text".into() } else { "foreign-thread-text".into() },
+                            // one class: whose text was read instead is in the detail only (it
+                            // can depend on what earlier runs of the process left behind)
+                            key: "not-own-last-failure".into(),
                             detail: format!(
                                 "thread {} read description {:?} at schedule position {} but its most recent failure was {:?}{}",
                                 i, text, pos, exp, whose
